@@ -102,7 +102,7 @@ type Server struct {
 	// lock data collection (RemoteHello and tracer data)
 	lockCollection sync.Mutex
 	// lock exporting updates (pushClient and responses to mutations)
-	lockExport sync.Mutex
+	lockExport simhook.Mutex
 	// server is currently responding to a client, and pushing should be skipped
 	// respInProgress atomic.Bool
 
@@ -759,6 +759,7 @@ func (s *Server) pushClient() {
 	}
 	s.log("pushClient:ok t%d", data.mTrackedTimeSum)
 
+	simhook.At("rpc.push.sent", s.Mach.Id())
 	s.storeLastPush(data)
 }
 
